@@ -78,6 +78,10 @@ type smbCtx struct {
 	formats map[string]string
 	// unmarshal state
 	cur string
+	// readStale: the last nested Unmarshal discarded its byte count (`_, err = ...` or a bare call), so the Go
+	// variable bytesRead still holds an older value than the interpreter's; any use of it before the next
+	// assignment would make the description unfaithful
+	readStale bool
 }
 
 func (x *smbCtx) opaqueM(stream string, n ast.Node) {
@@ -504,7 +508,7 @@ func (x *smbCtx) unmarshalBody(body *ast.BlockStmt) {
 		if t == "return offset, nil" {
 			continue
 		}
-		if strings.HasPrefix(t, "if err != nil { return offset, err }") {
+		if strings.HasPrefix(t, "if err != nil { return offset, err }") || strings.HasPrefix(t, "if err != nil { return 0, err }") {
 			continue
 		}
 		if t == "offset++" {
@@ -534,7 +538,7 @@ func (x *smbCtx) unmarshalBody(body *ast.BlockStmt) {
 			if len(s.Lhs) == 1 && len(s.Rhs) == 1 {
 				// offset += E
 				if identName(s.Lhs[0]) == "offset" && s.Tok == token.ADD_ASSIGN {
-					if e, ok := x.lenExp(s.Rhs[0]); ok {
+					if e, ok := x.lenExp(s.Rhs[0]); ok && !(x.readStale && strings.Contains(e, "ERead")) {
 						x.cmd.U = append(x.cmd.U, uop{Stream: x.cur, Kind: "adv", Len: e})
 						continue
 					}
@@ -554,7 +558,8 @@ func (x *smbCtx) unmarshalBody(body *ast.BlockStmt) {
 				}
 			}
 			// bytesRead, err = c.F.Unmarshal(S[offset:])
-			if len(s.Lhs) == 2 && len(s.Rhs) == 1 && identName(s.Lhs[0]) == "bytesRead" {
+			if len(s.Lhs) == 2 && len(s.Rhs) == 1 && (identName(s.Lhs[0]) == "bytesRead" || identName(s.Lhs[0]) == "_") {
+				x.readStale = identName(s.Lhs[0]) == "_"
 				if ce, ok := unparen(s.Rhs[0]).(*ast.CallExpr); ok && len(ce.Args) == 1 {
 					if se, ok := ce.Fun.(*ast.SelectorExpr); ok && se.Sel.Name == "Unmarshal" {
 						if f, ok := x.fieldOf(se.X); ok {
@@ -578,6 +583,28 @@ func (x *smbCtx) unmarshalBody(body *ast.BlockStmt) {
 									x.cmd.U = append(x.cmd.U, u)
 									continue
 								}
+							}
+						}
+					}
+				}
+			}
+			x.opaqueU(st)
+		case *ast.ExprStmt:
+			// c.F.Unmarshal(S[offset : offset+n]) with the result ignored: faithful to a nested read only when the
+			// nested type has a fixed size and the window is exactly that size (the call cannot fail then)
+			if ce, ok := unparen(s.X).(*ast.CallExpr); ok && len(ce.Args) == 1 {
+				if se, ok := ce.Fun.(*ast.SelectorExpr); ok && se.Sel.Name == "Unmarshal" {
+					if f, ok := x.fieldOf(se.X); ok {
+						if sl, ok := unparen(ce.Args[0]).(*ast.SliceExpr); ok && sl.High != nil {
+							stream := streamOfVar(identName(sl.X))
+							lo, okl := x.offsetPlus(sl.Low)
+							hi, okh := x.offsetPlus(sl.High)
+							size := map[string]string{"types.SMB_FILE_ATTRIBUTES": "(EConst 2)", "types.SMB_DATE": "(EConst 2)",
+								"types.FILETIME": "(EConst 8)", "types.SMB_TIME": "(EConst 8)"}[x.fieldType(f)]
+							if stream != "" && okl && okh && lo == "(EConst 0)" && size != "" && hi == size {
+								x.cmd.U = append(x.cmd.U, uop{Stream: stream, Kind: "nested", Field: f, Type: x.fieldType(f), Len: hi})
+								x.readStale = true
+								continue
 							}
 						}
 					}
